@@ -89,4 +89,94 @@ example : prepOutput [33, 30, 31] [7, 5, 9] =
     idxOfPair (prepOutput [33, 30, 31] [7, 5, 9]) (33, 31) = .error .badPair ∧
     [33, 30, 31].Nodup := by decide
 
+/-- "selected markers produced by the pipeline's own stages … identify clusters and genes
+consistently by name": the marker table written by the selection stage (one entry per parent
+the workers delivered, in delivery order `order`; `chosen p` = the positions selected for `p`)
+has exactly the delivered parents as keys, in that order; the list under key `p` is
+`gene_names[chosen p]` of the reference-marker file, so every listed gene is a reference gene;
+the table exists exactly when every chosen position is inside `gene_names` (the only failure is
+the `IndexError`); and when the delivered parents are `taxonomy_tree.all_parents` of a
+well-formed taxonomy in any order, the table is a dict (distinct keys) each of whose keys
+`'None'` / `'level/node'` names a parent of that taxonomy. -/
+theorem names_consistent_table (r : RefFile) (order : List PKey) (chosen : PKey → List Nat) :
+    (∀ lk, markerTable r order chosen = .ok lk →
+      lk.map (·.1) = order ∧ (∀ e ∈ lk, ∀ g ∈ e.2, g ∈ r.geneNames) ∧
+      (∀ p gs, (p, gs) ∈ lk → geneNamesAt r.geneNames (chosen p) = .ok gs) ∧
+      (∀ k, get? lk k =
+        if k ∈ order then some ((chosen k).map (fun i => r.geneNames.getD i 0)) else none)) ∧
+    ((∃ lk, markerTable r order chosen = .ok lk) ↔
+      ∀ p ∈ order, ∀ i ∈ chosen p, i < r.geneNames.length) ∧
+    (∀ e, markerTable r order chosen = .error e → e = .badGeneIndex) ∧
+    (∀ t : RawTree, TreeWF t → order.Perm t.allParents →
+      ∀ lk, markerTable r order chosen = .ok lk →
+        KeysNodup lk ∧ (∀ k ∈ lk.map (·.1), k ∈ t.allParents) ∧
+        (∀ p ∈ t.allParents, ∃ gs, get? lk p = some gs)) := by
+  refine ⟨fun lk h => ⟨markerTable_keys r order chosen lk h, markerTable_genes r order chosen lk h,
+      fun p gs hm => (markerTable_entry r order chosen lk h p gs hm).2,
+      markerTable_get? r order chosen lk h⟩, ?_, markerTable_error_class r order chosen, ?_⟩
+  · constructor
+    · rintro ⟨lk, h⟩; exact ((markerTable_ok_iff r order chosen lk).1 h).1
+    · intro h; exact ⟨_, (markerTable_ok_iff r order chosen _).2 ⟨h, rfl⟩⟩
+  · intro t hT hp lk h
+    have hnd : order.Nodup := hp.nodup_iff.2 (treeOK_of_wf t hT).parentsNodup
+    refine ⟨markerTable_keysNodup r order chosen lk h hnd, ?_, ?_⟩
+    · intro k hk
+      rw [markerTable_keys r order chosen lk h] at hk
+      exact hp.mem_iff.1 hk
+    · intro p hpm
+      rw [markerTable_get? r order chosen lk h, if_pos (hp.mem_iff.2 hpm)]
+      exact ⟨_, rfl⟩
+
+example : markerTable (prepOutput [33, 30, 31] [7, 5, 9]) [some (0, 10), none, some (0, 11)]
+      (fun p => if p == none then [0, 2] else [1])
+      = .ok [(some (0, 10), [5]), (none, [7, 9]), (some (0, 11), [5])] ∧
+    exTr.allParents = [none, some (0, 11), some (0, 10)] := by decide
+
+example : markerTable (prepOutput [33, 30, 31] [7, 5, 9]) [none] (fun _ => [3]) = .error .badGeneIndex := by
+  decide
+
+example : TreeWF exTr ∧ [some (0, 10), none, some (0, 11)].Perm exTr.allParents :=
+  ⟨C08.validated_tree_is_wf exTr (by decide) (by decide) (by decide) (by decide), by decide⟩
+
+/-- "... are accepted by the next stage": the marker table the selection stage makes from the
+reference-marker file of a statistics file `f` (any delivery order of `all_parents`, taxonomy
+well formed) is accepted by the mapper's marker cache built against the SAME statistics file
+(reference gene names = `f.col_names`, taxonomy = `f.taxonomy_tree`) and query genes `Q`, as
+soon as every consulted parent (two or more children) was given at least one gene and the
+listed genes are query genes (the selection works on the reference genes thinned to the
+query) — no name of a parent or of a gene is ever refused. -/
+theorem names_consistent_accepted (f : StatsFile) (hT : TreeWF f.tree) (order : List PKey)
+    (chosen : PKey → List Nat) (lk : Lookup) (Q : List Gene) (m : Nat)
+    (hp : order.Perm f.tree.allParents)
+    (h : markerTable (refFileOf f) order chosen = .ok lk)
+    (hQ : ∀ e ∈ lk, ∀ g ∈ e.2, g ∈ Q)
+    (hne : ∀ p ∈ f.tree.allParents, Consulted f.tree p → ∀ gs, (p, gs) ∈ lk → gs ≠ []) :
+    ∃ c, createCache (some f.tree) lk f.colNames Q m = .ok c := by
+  have hnd : order.Nodup := hp.nodup_iff.2 (treeOK_of_wf _ hT).parentsNodup
+  have hk := markerTable_keysNodup _ order chosen lk h hnd
+  refine C08.accepted_otherwise f.tree hT lk f.colNames Q m hk ?_
+    (markerTable_genes (refFileOf f) order chosen lk h)
+  intro p hpm hc
+  have hpo : p ∈ order := hp.mem_iff.2 hpm
+  have hget := markerTable_get? _ order chosen lk h p
+  rw [if_pos hpo] at hget
+  have hmem := mem_of_get? lk p _ hget
+  obtain ⟨g, hg⟩ := List.exists_mem_of_ne_nil _ (hne p hpm hc _ hmem)
+  exact not_errAt_of_own f.tree lk Q m p _ hget g hg (hQ _ hmem g hg)
+
+example : ∃ c, createCache (some exTr) [(some (0, 10), [5]), (none, [7, 9]), (some (0, 11), [5])]
+    [7, 5, 9] [9, 5, 7, 4] 1 = .ok c :=
+  names_consistent_accepted { clusterToRow := [], colNames := [7, 5, 9], data := [], tree := exTr }
+    (C08.validated_tree_is_wf exTr (by decide) (by decide) (by decide) (by decide))
+    [some (0, 10), none, some (0, 11)] (fun p => if p == none then [0, 2] else [1]) _ [9, 5, 7, 4] 1
+    (by decide) (by decide) (by decide)
+    (fun p _ _ gs hm =>
+      (by decide : ∀ e ∈ [(some (0, 10), [5]), ((none : PKey), [7, 9]), (some (0, 11), [5])], e.2 ≠ [])
+        (p, gs) hm)
+
+example : (createCache (some exTr) [(some (0, 10), [5]), (none, [7, 9]), (some (0, 11), [5])]
+      [7, 5, 9] [9, 5, 7, 4] 1).toOption.map (·.groups)
+    = some [(some (0, 10), [(1, 1)]), (none, [(0, 2), (2, 0)]), (some (0, 11), [(1, 1)])] := by
+  decide +kernel
+
 end CTM.C18
